@@ -396,7 +396,6 @@ package dotgit
 //gvc:  theory int
 //gvc:  opt coarse
 //gvc:  opt frame args
-//gvc:  opt callees abstract
 //gvc:  loop 1 invariant pos: it1 >= 0
 //gvc:  loop 2 invariant pos: it2 >= 0
 //gvc:  sink WriteString requires [C16] hashref: ref != nil ==> ref.t == 1
